@@ -502,6 +502,24 @@ def worker_reuse(dname, out_path):
         count("MappingSchema." + pname)
         if f_out != r_out:
             V("reuse-schema", "nested", "schema-answer:" + pname, f"long-lived nested MappingSchema.{pname} (probe {n}): {str(r_out)[:150]} fresh: {str(f_out)[:150]}", {"n": n, "sql": pname})
+    # --- one schema asked through Dialect INSTANCES that differ only in their settings (instances compare equal by type)
+    if dname in ("snowflake", "postgres", "bigquery"):
+        variants = [Dialect.get_or_raise(dname), Dialect.get_or_raise(f"{dname}, normalization_strategy=case_sensitive"),
+                    Dialect.get_or_raise(f"{dname}, normalization_strategy=uppercase"), Dialect.get_or_raise(f"{dname}, normalization_strategy=lowercase")]
+        iprobes = [("has_column", lambda sc, d: sc.has_column("t", "Foo", dialect=d)), ("has_column", lambda sc, d: sc.has_column("T", "foo", dialect=d)),
+                   ("column_names", lambda sc, d: sc.column_names("t", dialect=d)), ("get_column_type", lambda sc, d: sc.get_column_type("t", "FOO", dialect=d).sql()),
+                   ("find", lambda sc, d: sc.find(exp.to_table("T", dialect=d))), ("column_names", lambda sc, d: sc.column_names("Tt", dialect=d))]
+        mk = lambda: MappingSchema({"t": {"Foo": "int", "bar": "text"}, "Tt": {"x": "int"}}, dialect=dname)
+        for order in (variants, variants[::-1], variants[1::2] + variants[::2]):
+            s_long = mk()
+            for vi, d in enumerate(order):
+                for pname, probe in iprobes:
+                    f_out = captured(lambda: str(probe(mk(), d)))
+                    r_out = captured(lambda: str(probe(s_long, d)))
+                    count("MappingSchema." + pname + "(dialect instance)")
+                    if f_out != r_out:
+                        V("reuse-schema", "dialect-instance", "schema-answer:" + pname,
+                          f"long-lived MappingSchema.{pname} with dialect instance #{vi} ({d.normalization_strategy.name}): {str(r_out)[:120]} fresh: {str(f_out)[:120]}", {"n": vi, "sql": pname})
     # --- struct columns: star expansion over a struct reads the field definitions held by the schema's type objects; a call
     # that rewrites its own tree in place (qualify quotes identifiers by default) must not reach them
     if dname in ("risingwave", "bigquery", "duckdb", "postgres", ""):
